@@ -130,21 +130,31 @@ theorem C16_lockfree (w : Width) (k : Kind) (init : Word w) (progs : List (List 
     have hcell := hbel _ hb hn
     simp [stepThread, htodo, hpc, lockCmpxchg, hcell] at hfail
 
-/-- **C16 (exchange).**  ND_EXCH: after the (private) evaluation of the second argument the single `xchg`
-    instruction, executed while the object holds `c`, installs the low `w` bits of the argument register
-    `v` (any upper bits) and is the linearization point with result `c`; the operation reports `c`
-    (for 1- and 2-byte objects after the extension instruction), and `reg_ax(w)` holds `c`. -/
+/-- **C16 (exchange).**  ND_EXCH: after the (private) evaluation of the second argument - and, for a floating
+    object, its move from `%xmm0` to `%rax` - the single `xchg` instruction, executed while the object holds
+    `c`, installs the low `w` bits of the argument register `v` (any upper bits) and is the linearization point
+    with result `c`; the operation reports `c` (for 1- and 2-byte objects after the extension instruction, for
+    floating objects after the move back), and `reg_ax(w)` holds `c`. -/
 theorem C16_exchange (w : Width) (k : Kind) (th : Thread w) (v : BitVec 64) (rest : List (Oper w))
-    (htodo : th.todo = .xchg v :: rest) (hpc : th.pc = .xload) (c1 c c3 : Word w) :
+    (htodo : th.todo = .xchg v :: rest) (hpc : th.pc = .xload) (c1 c2 c c3 : Word w) :
     let th1 := stepT k th c1
-    let out := stepThread k c th1
-    let th' := if w.narrow then stepT k out.th c3 else out.th
+    let th2 := if k = .flo then stepT k th1 c2 else th1
+    let out := stepThread k c th2
+    let th' := if xchgHasPost w k then stepT k out.th c3 else out.th
+    th2.pc = .xchg ∧
     out.cell = readReg w v ∧
     out.ev = some (.commit (.xchg v) (.val c)) ∧
     (Oper.xchg v).spec c = some (out.cell, .val c) ∧
     th'.todo = rest ∧ th'.results = th.results ++ [.val c] ∧
     readReg w th'.rax = c := by
-  cases hn : w.narrow <;>
-    simp [stepT, stepThread, htodo, hpc, hn, Oper.spec, readReg_writeReg, readReg_loadExt]
+  cases k <;> cases hn : w.narrow <;>
+    simp [stepT, stepThread, htodo, hpc, hn, xchgHasPost, Oper.spec, readReg_writeReg, readReg_loadExt]
+
+/-- non-vacuity of `C16_exchange`: exchanging 5 into a `signed char` object holding -1 (register upper bits differ) -/
+example :
+    let th : Thread .w8 := mkThread [.xchg 0xabcd05#64]
+    let out := stepThread .signed (0xff#8 : Word .w8) (stepT .signed th 0)
+    let th' := stepT .signed out.th 0
+    (out.cell : BitVec 8) = 0x05#8 ∧ th'.results = [.val 0xff#8] ∧ th'.rax = 0xffffffff#64 := by decide
 
 end ChibiVerif.Props.C16
